@@ -73,6 +73,7 @@ func raftlogCmd(out *cq.Out, seed uint64, tier string) {
 		}
 		return uint64(1 + rng.Intn(40))
 	}
+	raftlogScripted(out, seed)
 	var cases []string
 	for ci := 0; ci < ncases; ci++ {
 		dir, _ := os.MkdirTemp(out.Dir, "raftlog")
@@ -225,4 +226,83 @@ func raftlogCmd(out *cq.Out, seed uint64, tier string) {
 	fmt.Fprintf(f, "Definition R := Eval vm_compute in run_raftlog_cases cases.\nPrint R.\n")
 	f.Close()
 	_ = time.Second
+}
+
+// raftlogScripted: two fixed operation sequences the random generator rarely produces.
+func raftlogScripted(out *cq.Out, seed uint64) {
+	// (1) one StoreLogs call of raft's maximum 64 entries carrying large commands (several MiB in one write)
+	{
+		dir, _ := os.MkdirTemp(out.Dir, "raftlogbig")
+		st, err := consensus.VOpenRaftLog(dir)
+		if err != nil {
+			panic(err)
+		}
+		var ls []*raft.Log
+		for i := uint64(1); i <= 3; i++ {
+			ls = append(ls, &raft.Log{Index: i, Term: 1, Type: raft.LogCommand, Data: []byte{byte(i)}})
+		}
+		st.StoreLogs(ls)
+		ls = nil
+		for i := uint64(4); i <= 67; i++ {
+			d := make([]byte, 128*1024)
+			for x := range d {
+				d[x] = byte(uint64(x) * i)
+			}
+			ls = append(ls, &raft.Log{Index: i, Term: 2, Type: raft.LogCommand, Data: d})
+		}
+		err = st.StoreLogs(ls)
+		check := func(when string) {
+			last, _ := st.LastIndex()
+			missing := 0
+			for _, l := range ls {
+				var got raft.Log
+				if e := st.GetLog(l.Index, &got); e != nil || !bytes.Equal(got.Data, l.Data) || got.Term != l.Term {
+					missing++
+				}
+			}
+			if err != nil || last != 67 || missing > 0 {
+				out.Violate("C15:large-append-lost", fmt.Sprintf("StoreLogs of 64 entries of 128 KiB returned %v; %s LastIndex = %d (want 67) and %d of the 64 entries cannot be read back", err, when, last, missing),
+					map[string]interface{}{"seed": seed, "scenario": "large-append"})
+			}
+		}
+		check("right afterwards")
+		st.Close()
+		st, _ = consensus.VOpenRaftLog(dir)
+		check("after a reopen")
+		st.Close()
+		os.RemoveAll(dir)
+		out.Case("scripted:large-append", true)
+	}
+	// (2) an index stored, flushed by a reopen, stored again (a new leader overwrites a conflicting suffix), then
+	// truncated with DeleteRange ending exactly there, and reopened: it must stay deleted
+	{
+		dir, _ := os.MkdirTemp(out.Dir, "raftlogres")
+		st, err := consensus.VOpenRaftLog(dir)
+		if err != nil {
+			panic(err)
+		}
+		for i := uint64(1); i <= 5; i++ {
+			st.StoreLog(&raft.Log{Index: i, Term: 1, Type: raft.LogCommand, Data: []byte(fmt.Sprintf("A%d", i))})
+		}
+		st.Close()
+		st, _ = consensus.VOpenRaftLog(dir)
+		st.StoreLog(&raft.Log{Index: 4, Term: 2, Type: raft.LogCommand, Data: []byte("B4")})
+		st.StoreLog(&raft.Log{Index: 5, Term: 2, Type: raft.LogCommand, Data: []byte("B5")})
+		st.DeleteRange(4, 5)
+		for round := 0; round < 3; round++ {
+			last, _ := st.LastIndex()
+			var g4, g5 raft.Log
+			e4, e5 := st.GetLog(4, &g4), st.GetLog(5, &g5)
+			if last != 3 || e4 == nil || e5 == nil {
+				out.Violate("C15:deleted-entry-resurrects", fmt.Sprintf("entries 4 and 5 were stored, flushed, stored again and removed with DeleteRange(4,5); after %d reopen(s) LastIndex = %d (want 3), GetLog(4) err=%v, GetLog(5) err=%v data=%q", round, last, e4, e5, g5.Data),
+					map[string]interface{}{"seed": seed, "scenario": "store-flush-store-delete-reopen", "reopens": round})
+				break
+			}
+			st.Close()
+			st, _ = consensus.VOpenRaftLog(dir)
+		}
+		st.Close()
+		os.RemoveAll(dir)
+		out.Case("scripted:resurrect", true)
+	}
 }
